@@ -23,7 +23,8 @@ CONSTANTS LimbBits, NLimbs, PB,
           SizesFor(_),    \* cursor -> set of request sizes explored from that state
           Frames,         \* start frames (words) used by the region mappers
           OpKinds,        \* subset of {"reserve", "mapregion", "identity"}
-          MaxOps, MaxPairs,
+          Budgets,        \* map-seam budgets K: the seam accepts K calls and fails on call K+1
+          MaxOps,
           Bug, Emit, Props
 
 P == INSTANCE AddrSpaceProps
@@ -61,18 +62,16 @@ ReserveImpl(c, size) ==
   ELSE IF W!Lt(c, r.v) THEN [ok |-> FALSE, cur |-> c, addr |-> W!Zero]
   ELSE [ok |-> TRUE, cur |-> W!Sub(c, r.v), addr |-> W!Sub(c, r.v)]
 
-\* number of map-seam calls the region mappers make for `size`
-PageCount(size) == IF Bug = "PageCountUnrounded" THEN W!ShiftR(size, PB) ELSE W!ShiftR(Rounded(size).v, PB)
-CapN(n) == IF W!FitsNat(n) /\ W!ToNat(n) <= 4 * MaxPairs THEN W!ToNat(n) ELSE 4 * MaxPairs
-Capped(n) == ~(W!FitsNat(n) /\ W!ToNat(n) <= 4 * MaxPairs)
+\* number of pages the region mappers want to map for `size`
+PageCount(size) ==
+  LET n == W!ShiftR(Rounded(size).v, PB) IN
+  CASE Bug = "PageCountUnrounded" -> W!ShiftR(size, PB)
+    [] Bug = "PageCountTruncated" -> W!LowBits(n, W!Width \div 2)     \* counter kept in half a word (uint32 on amd64)
+    [] OTHER -> n
+\* the seam accepts K calls and fails on call K+1: calls made, and whether the seam failed
+SeamFails(n, K) == W!Lt(W!FromNat(K), n)
+Calls(n, K) == IF SeamFails(n, K) THEN K + 1 ELSE W!ToNat(n)
 Pairs(p0, f0, n) == [i \in 1..n |-> <<P!Nth(p0, i), IF Bug = "SameFrame" THEN f0 ELSE P!Nth(f0, i)>>]
-
-\* a region request is generated only if it needs few pages or has to fail (DESIGN 4.5 G)
-SmallOrFailing(c, size, viaReservation) ==
-  LET nd == P!Need(size) IN
-  \/ nd.ovf
-  \/ (viaReservation /\ W!Lt(c, W!RoundUpC(size, PB).v))
-  \/ (W!FitsNat(nd.n) /\ W!ToNat(nd.n) <= MaxPairs)
 
 Step(e, c2, newhist, op) ==
   LET m == P!Mon(s, e) IN
@@ -82,33 +81,37 @@ Step(e, c2, newhist, op) ==
 Reserve(size) ==
   LET r == ReserveImpl(cursor, size)
       e == [k |-> "reserve", size |-> size, res |-> IF r.ok THEN "ok" ELSE "err", addr |-> r.addr, cur |-> r.cur]
-  IN Step(e, r.cur, IF r.ok THEN Append(hist, [a |-> r.addr, size |-> size]) ELSE hist, [op |-> "reserve", size |-> size, f |-> W!Zero])
+  IN Step(e, r.cur, IF r.ok THEN Append(hist, [a |-> r.addr, size |-> size]) ELSE hist,
+          [op |-> "reserve", size |-> size, f |-> W!Zero, budget |-> 0])
 
-MapRegion(f, size) ==
-  /\ SmallOrFailing(cursor, size, TRUE)
-  /\ LET fail0 == Rounded(size).fail
-         r  == IF fail0 THEN [ok |-> FALSE, cur |-> cursor, addr |-> W!Zero] ELSE ReserveImpl(cursor, Rounded(size).v)
-         n  == PageCount(size)
-         pg == W!ShiftR(r.addr, PB)
-         e  == [k |-> "mapregion", f |-> f, size |-> size, res |-> IF r.ok THEN "ok" ELSE "err",
-                page |-> IF r.ok THEN pg ELSE W!Zero, cur |-> r.cur,
-                pairs |-> IF r.ok THEN Pairs(pg, f, CapN(n)) ELSE <<>>, capped |-> r.ok /\ Capped(n)]
-     IN Step(e, r.cur, IF r.ok THEN Append(hist, [a |-> r.addr, size |-> size]) ELSE hist, [op |-> "mapregion", size |-> size, f |-> f])
+MapRegion(f, size, K) ==
+  LET fail0 == Rounded(size).fail
+      r  == IF fail0 THEN [ok |-> FALSE, cur |-> cursor, addr |-> W!Zero] ELSE ReserveImpl(cursor, Rounded(size).v)
+      n  == PageCount(size)
+      sf == r.ok /\ SeamFails(n, K)
+      pg == W!ShiftR(r.addr, PB)
+      e  == [k |-> "mapregion", f |-> f, size |-> size, budget |-> K,
+             res |-> IF ~r.ok THEN "err" ELSE IF sf THEN "seamerr" ELSE "ok",
+             page |-> IF r.ok /\ ~sf THEN pg ELSE W!Zero, cur |-> r.cur,
+             pairs |-> IF r.ok THEN Pairs(pg, f, Calls(n, K)) ELSE <<>>, seamfail |-> sf]
+  IN Step(e, r.cur, IF r.ok THEN Append(hist, [a |-> r.addr, size |-> size]) ELSE hist,
+          [op |-> "mapregion", size |-> size, f |-> f, budget |-> K])
 
-Identity(f, size) ==
-  /\ SmallOrFailing(cursor, size, FALSE)
-  /\ LET fail0 == Rounded(size).fail
-         n  == PageCount(size)
-         e  == [k |-> "identity", f |-> f, size |-> size, res |-> IF fail0 THEN "err" ELSE "ok",
-                page |-> IF fail0 THEN W!Zero ELSE f, cur |-> cursor,
-                pairs |-> IF fail0 THEN <<>> ELSE Pairs(f, f, CapN(n)), capped |-> ~fail0 /\ Capped(n)]
-     IN Step(e, cursor, hist, [op |-> "identity", size |-> size, f |-> f])
+Identity(f, size, K) ==
+  LET fail0 == Rounded(size).fail
+      n  == PageCount(size)
+      sf == ~fail0 /\ SeamFails(n, K)
+      e  == [k |-> "identity", f |-> f, size |-> size, budget |-> K,
+             res |-> IF fail0 THEN "err" ELSE IF sf THEN "seamerr" ELSE "ok",
+             page |-> IF fail0 \/ sf THEN W!Zero ELSE f, cur |-> cursor,
+             pairs |-> IF fail0 THEN <<>> ELSE Pairs(f, f, Calls(n, K)), seamfail |-> sf]
+  IN Step(e, cursor, hist, [op |-> "identity", size |-> size, f |-> f, budget |-> K])
 
 Next == /\ mismatch = <<>> /\ nops < MaxOps
         /\ \E size \in SizesFor(cursor) :
              \/ ("reserve" \in OpKinds /\ Reserve(size))
-             \/ ("mapregion" \in OpKinds /\ \E f \in Frames : MapRegion(f, size))
-             \/ ("identity" \in OpKinds /\ \E f \in Frames : Identity(f, size))
+             \/ ("mapregion" \in OpKinds /\ \E f \in Frames, K \in Budgets : MapRegion(f, size, K))
+             \/ ("identity" \in OpKinds /\ \E f \in Frames, K \in Budgets : Identity(f, size, K))
 
 --------------------------------------------------------------------------
 (* properties *)
